@@ -236,6 +236,15 @@ pub fn dump(w: &mut World, t: &mut Toks) -> String {
             chk("getUnlockSchedule", "getUnlockSchedule", get(&st, b"unlockSchedule").to_vec());
         }
     }
+    // the per-address winner COUNT view must agree with the per-address winner LIST view
+    for a in addrs.iter() {
+        if let Ok(v) = w.view_vals("getWinningTicketIdsForAddress", *a) {
+            let n = w.view_num("getNumberOfWinningTicketsForAddress", *a);
+            if n != v.len().to_string() && !bad_views.contains(&"getNumberOfWinningTicketsForAddress") {
+                bad_views.push("getNumberOfWinningTicketsForAddress");
+            }
+        }
+    }
     s += &format!(" views={}", if bad_views.is_empty() { "ok".to_string() } else { bad_views.join("+") });
     // ticket-space internals from raw storage (every key, whatever its id)
     let mut status: Vec<u64> = Vec::new();
